@@ -83,9 +83,9 @@ class PyRepo:
         self._pull_down_template_methods()
 
     def _pull_down_template_methods(self) -> None:
-        """An intermediate class that is never instantiated itself - it is not a dataclass although its base's other subclasses are,
-        and it declares a hook whose body only raises NotImplementedError - and implements operations for its subclasses through that
-        hook (template method) is implementation sharing: for each concrete subclass the inherited operation is entered as that
+        """An intermediate class that is never instantiated itself - it is not a dataclass, all its direct subclasses are, and no
+        `B(..)` call exists in the package - and implements operations for its subclasses (directly, or through hooks that only raise
+        NotImplementedError and that every subclass defines: template method) is implementation sharing: for each concrete subclass the inherited operation is entered as that
         subclass's own (synthesised) method, so that `C.apply_esubst` is the same function whether the project writes it once per
         constructor or once in a shared base.  The intermediate class is marked `abstract` and is not a constructor of its own."""
         import copy
@@ -97,12 +97,16 @@ class PyRepo:
                          if [type(st) for st in g.body if not (isinstance(st, ast.Expr) and isinstance(st.value, ast.Constant))] == [ast.Raise]
                          and 'NotImplementedError' in ast.unparse(g.body[-1])]
                 subs = [c for c in mi.classes.values() if c is not b and b.name in c.bases]
-                if not hooks or not subs or not all(any(d.startswith('dataclass') for d in c.decorators) for c in subs):
+                if not subs or not all(any(d.startswith('dataclass') for d in c.decorators) for c in subs):
                     continue
-                # the root of the hierarchy (all of whose methods are such stubs) is not a template class
-                if len(hooks) == len(b.methods):
+                # the root of the hierarchy (all of whose methods are such stubs) is not a sharing class
+                if hooks and len(hooks) == len(b.methods):
                     continue
                 if not all(all(h in c.methods for h in hooks) for c in subs):
+                    continue
+                # never instantiated itself: no call `B(..)` anywhere in the package
+                if any(isinstance(n, ast.Call) and isinstance(n.func, ast.Name) and n.func.id == b.name
+                       for m2 in self.modules.values() for n in ast.walk(m2.tree)):
                     continue
                 b.abstract = True
                 for c in subs:
